@@ -374,7 +374,8 @@ def check(col, prog, tier, profile, fixture=None):
             ret = util.ret_term(st)
             calls = [e for e in st.event_list() if e.kind == "call"]
             s_, r_ = ("param", 1, I.names.get(1)), ("param", 2, I.names.get(2))
-            ok = len(calls) == 1 and (calls[0].fn.get("resolved") or calls[0].fn).get("def") == base.key and calls[0].args in ((r_, s_), (("ref", ("deref", r_)), ("ref", ("deref", s_)))) and ret == calls[0].res
+            same = lambda a_, p_: a_ == p_ or a_ == ("ref", ("deref", p_))   # (`rhs` and `&*rhs` are the same reference)
+            ok = len(calls) == 1 and (calls[0].fn.get("resolved") or calls[0].fn).get("def") == base.key and len(calls[0].args) == 2 and same(calls[0].args[0], r_) and same(calls[0].args[1], s_) and ret == calls[0].res
             key = "%s|swapped-%s" % (fk(b), base.name)
             if ok:
                 col.ok("X2" + sfx, b.loc(), key, "%s(a, b) = %s(b, a)" % (b.name, base.name))
